@@ -57,7 +57,7 @@ for m in ("m1", "m2"):
             if modline:
                 with open(f"{wt}/{modline.group(2)}", "a") as fh: fh.write("\n" + modline.group(1) + "\n")
         add_mod()
-        feat = " --all-features" if crate in ("noodles-bgzf","noodles-bam","noodles-bcf","noodles-cram","noodles-csi","noodles-sam","noodles-vcf","noodles-fasta","noodles-fastq","noodles-gff","noodles-tabix") and pid in ("C16",) else ""
+        feat = " --all-features" if crate in ("noodles-bgzf","noodles-bam","noodles-bcf","noodles-cram","noodles-csi","noodles-sam","noodles-vcf","noodles-fasta","noodles-fastq","noodles-gff","noodles-tabix") and pid in ("C16",) else (" --all-features" if crate == "noodles-util" else "")
         runcmd = f"cargo test -p {crate} --offline{feat} --test {name}" if kind == "tests" else (f"cargo run -p {crate} --offline --example {name}" if kind == "examples" else f"cargo test -p {crate} --offline{feat} {name}")
         rc0, out0 = sh(runcmd, cwd=wt)
         res["demo_without_change"] = "pass" if rc0 == 0 else f"FAIL rc={rc0}"
@@ -73,7 +73,7 @@ for m in ("m1", "m2"):
             sh(f"git checkout -q -- . && git apply {patch}", cwd=wt)
         # touched crates' tests with the change (demo removed)
         crates = sorted(set(re.findall(r"^\+\+\+ b/(noodles-[a-z]+)/", open(patch).read(), re.M)))
-        rc2, out2 = sh("cargo test --offline " + " ".join(f"-p {c}" for c in crates) + " 2>&1 | grep -E '^test result|FAILED|panicked' | grep -v ' ok\\. ' | head -5", cwd=wt)
+        rc2, out2 = sh("cargo test --offline " + ("--all-features " if crates == ["noodles-util"] else "") + " ".join(f"-p {c}" for c in crates) + " 2>&1 | grep -E '^test result|FAILED|panicked' | grep -v ' ok\\. ' | head -5", cwd=wt)
         res["crate_tests_with_change"] = "pass" if not out2.strip() else out2.strip()[:300]
         sh("git checkout -q -- . && git clean -fdq", cwd=wt)
     # --- (2) the checks against the change
